@@ -89,3 +89,8 @@ impl Unit {
         }
     }
 }
+
+/// Verification hooks (feature `verif-hooks`, add-only): `mrt_file_in` is a
+/// private module, so its HTTP hook is re-exported here for `crate::verif`.
+#[cfg(feature = "verif-hooks")]
+pub use mrt_file_in::verif_hooks_http as verif_mrt_file_in_http;
